@@ -266,8 +266,13 @@ static var Range_Iter_Last(var self) {
   struct Range* r = self;
   struct Int* i = r->value;
   if (r->step == 0) { return Terminal; }
-  if (r->step  > 0) { i->val = r->stop-1; }
-  if (r->step  < 0) { i->val = r->start; }
+  if (r->stop <= r->start) { return Terminal; }
+  if (r->step  > 0) {
+    i->val = r->start + (((r->stop-1) - r->start) / r->step) * r->step;
+  }
+  if (r->step  < 0) {
+    i->val = (r->stop-1) - (((r->stop-1) - r->start) / -r->step) * -r->step;
+  }
   if (r->step  > 0 and i->val < r->start) { return Terminal; }
   if (r->step  < 0 and i->val >= r->stop) { return Terminal; }
   return i;
